@@ -21,6 +21,7 @@ mod rng;
 mod rt;
 mod tables;
 mod truth;
+mod twins;
 mod util;
 mod worker;
 
@@ -41,6 +42,13 @@ fn main() {
         "famops" => props::cost::famops(&args[2..]),
         "selftest" => {
             let n = golden::selftest();
+            match twins::selftest() {
+                Ok(s) => eprintln!("fingerprint twins: {}", s),
+                Err(e) => {
+                    eprintln!("fingerprint twins: {}", e);
+                    std::process::exit(3);
+                }
+            }
             println!("{{\"selftest\":\"ok\",\"checks\":{}}}", n);
         }
         _ => {
